@@ -53,6 +53,9 @@ type Core struct {
 
 	// A `stack` of labels to jump to if an exception is raised
 	ExceptionCatchLabels []CallFrame
+	// For each catch label, the state of the core at the moment the label was registered.
+	// It is restored when an exception is caught so that frames, locals and operands of the abandoned code are released.
+	exceptionCatchStates []catchState
 
 	// Points to the start of the current stackframe
 	// Then, the absolute index can be computed by adding the value of mp and the relative offset of the memory location.
@@ -61,6 +64,12 @@ type Core struct {
 	CancelCtx *context.Context
 	// Describes some resource limits for the current core
 	Limits CoreLimits
+}
+
+type catchState struct {
+	callStackSize int
+	stackSize     int
+	memoryPointer int64
 }
 
 type CoreLimits struct {
@@ -316,14 +325,15 @@ outer:
 						return
 					}
 
-					// If the exception occurred in another function, also pop the call frame of this function
-					// If this was not the case, a function would basically "return twice",
-					// as the jump to the error-handling code would not pop the most current call frame.
+					// Unwind to the function activation which registered the catch-block:
+					// all call frames above it are popped and its memory pointer and operand stack height are restored.
+					// (The exception may have crossed any number of calls, including recursive ones.)
 					catchLocation := self.ExceptionCatchLabels[len(self.ExceptionCatchLabels)-1]
 					verifCatch(self)
-					if self.callFrame().Function != catchLocation.Function {
-						self.popCallStack()
-					}
+					catchState := self.exceptionCatchStates[len(self.exceptionCatchStates)-1]
+					self.CallStack = self.CallStack[:catchState.callStackSize]
+					self.Stack = self.Stack[:catchState.stackSize]
+					self.MemoryPointer = catchState.memoryPointer
 					*self.callFrame() = catchLocation
 
 					self.push(
